@@ -3,7 +3,7 @@
    SigSafe.v, SigValues.v; Print Assumptions follows each. *)
 From Coq Require Import List NArith Bool.
 Import ListNotations.
-Require Import Util SigCore SigLemmas SigInv SigSafe SigSpec SigValues SigExtra.
+Require Import Util SigCore SigLemmas SigInv SigSafe SigSpec SigValues SigExtra SigShared.
 Local Open Scope N_scope.
 
 Theorem C14_copy_shares : S_copy_shares.
@@ -36,3 +36,14 @@ Proof. exact handles_share_list. Qed.
 Theorem C14_emission_through_either_handle : S_emission_through_either_handle.
 Proof. exact emission_through_either_handle. Qed.
 Print Assumptions C14_emission_through_either_handle.
+
+(* a signal object co-owned (std::shared_ptr) by functor copies: it lives until the program has released
+   it AND the last owning functor copy is gone - wherever that copy was stored, including a slot of the
+   object's own list - and not a moment longer than the operation in which that happens *)
+Theorem C14_signal_object_owned_by_functors_lifetime : S_shared_signal_lifetime_history.
+Proof. exact shared_signal_lifetime_history. Qed.
+Print Assumptions C14_signal_object_owned_by_functors_lifetime.
+
+Theorem C14_no_unowned_signal_object_between_operations : S_no_orphan_signal_at_rest.
+Proof. exact no_orphan_signal_at_rest. Qed.
+Print Assumptions C14_no_unowned_signal_object_between_operations.
